@@ -132,4 +132,83 @@ class Resolve:
             shutil.rmtree(top, ignore_errors=True)
 
 
-TARGETS = {"codebasin.config:load_database": Resolve()}
+class Sequences:
+    """several entries in one database: state must not leak from one entry to the next"""
+    proved = False
+    role = "bounded stand-in for load_database on multi-entry databases"
+
+    def bound(self, tier):
+        return "6 hand-built multi-entry databases (directory then no directory; argument vectors that differ only in how a value with a blank is split; repeated unknown compiler)"
+
+    def inputs(self, tier, seed):
+        for k in range(6):
+            yield {"case": k}
+
+    def nontrivial(self, inp):
+        return True
+
+    def check(self, inp):
+        top = os.path.realpath(tempfile.mkdtemp(prefix="cbi_c13s_"))
+        root = os.path.join(top, "root")
+        try:
+            for d in ("src", "inc", "build/src", "build/inc"):
+                os.makedirs(os.path.join(root, d))
+            for p in ("src/a.c", "src/z.cpp", "build/src/z.cpp", "build/src/a.c"):
+                with open(os.path.join(root, p), "w") as fh:
+                    fh.write("int x;\n")
+            A = os.path.join(root, "src/a.c")
+            k = inp["case"]
+            if k in (0, 1):
+                e1 = {"directory": os.path.join(root, "build"), "file": A, "arguments": ["gcc", "-c", "-Iinc", A]}
+                e2 = {"file": "src/z.cpp", "arguments": ["g++", "-c", "-Iinc", "src/z.cpp"]}
+                db = [e1, e2] if k == 0 else [e2, e1]
+                want = {os.path.join(root, "src/z.cpp"): [os.path.join(root, "inc")], A: [os.path.join(root, "build/inc")]}
+                wantd = None
+            elif k in (2, 3):
+                e1 = {"file": A, "arguments": ["gcc", "-c", "-DFLAGS=-O2 -DNDEBUG", A]}
+                e2 = {"file": A, "arguments": ["gcc", "-c", "-DFLAGS=-O2", "-DNDEBUG", A]}
+                db = [e1, e2] if k == 2 else [e2, e1]
+                want = None
+                wantd = [["FLAGS=-O2 -DNDEBUG"], ["FLAGS=-O2", "NDEBUG"]]
+                if k == 3:
+                    wantd.reverse()
+            else:
+                db = [{"file": A, "arguments": ["mycc-unknown", "-c", A]},
+                      {"file": os.path.join(root, "src/z.cpp"), "arguments": ["mycc-unknown", "-c", os.path.join(root, "src/z.cpp")]}]
+                if k == 5:
+                    db.append({"file": A, "arguments": ["other-unknown", "-c", A]})
+                want = wantd = None
+            dbpath = os.path.join(top, "db.json")
+            json.dump(db, open(dbpath, "w"))
+            h = _Count()
+            lg = logging.getLogger("codebasin")
+            lg.addHandler(h)
+            prev = logging.root.manager.disable
+            logging.disable(logging.NOTSET)
+            try:
+                out = config.load_database(dbpath, root)
+            except BaseException as e:      # noqa: BLE001
+                return {"expected": "no exception", "observed": f"{type(e).__name__}: {e}", "klass": "load_database:sequence-raises"}
+            finally:
+                lg.removeHandler(h)
+                logging.disable(prev)
+            if want is not None:
+                got = {e["file"]: e["include_paths"] for e in out}
+                if got != want:
+                    return {"expected": want, "observed": got, "klass": "load_database:state-leaks-between-entries"}
+            if wantd is not None:
+                got = [e["defines"] for e in out]
+                if got != wantd:
+                    return {"expected": wantd, "observed": got, "klass": "load_database:entries-confused"}
+            if k >= 4:
+                n = sum(1 for r in h.records if "not recognized" in r.getMessage())
+                if n != len(db):
+                    return {"expected": f"{len(db)} unknown-compiler warnings (one per entry)", "observed": n,
+                            "klass": "load_database:one-warning-per-occurrence"}
+            return None
+        finally:
+            shutil.rmtree(top, ignore_errors=True)
+
+
+TARGETS = {"codebasin.config:load_database": Resolve(),
+           "codebasin.config:load_database#sequences": Sequences()}
